@@ -231,3 +231,96 @@ func VerifC03_BatchOver(L, size int) {
 	}
 	vReach("end")
 }
+
+// parallel slice workers: every record goes through the worker exactly once; batch numbers are those of the
+// input; after re-sequencing the records are in input order
+func VerifC03_Workers(n, pattern, nworkers int) {
+	batches, all := vMakeBatches(n, pattern)
+	touched := make([]int, len(all))
+	worker := func(s *obiseq.BioSequence) (obiseq.BioSequenceSlice, error) {
+		for i, x := range all {
+			if x == s {
+				touched[i]++
+			}
+		}
+		return obiseq.BioSequenceSlice{s}, nil
+	}
+	out := vInput(batches, vPermutation(n)).MakeIWorker(worker, false, nworkers)
+	orders, _ := vDrain(out)
+	vAssert(len(orders) == n && vOrdersArePermutation(orders), "workers-batch-numbers-preserved")
+	ok := true
+	for _, t := range touched {
+		ok = ok && t == 1
+	}
+	vAssert(ok, "workers-every-record-processed-exactly-once")
+	b2, all2 := vMakeBatches(n, pattern)
+	_, recs := vDrain(vInput(b2, vPermutation(n)).MakeIWorker(nil, false, nworkers).SortBatches())
+	vAssert(vSameRecords(recs, all2), "workers-every-record-once-in-order-after-resequencing")
+	vReach("end")
+}
+
+// Distribute on a key: one output stream per key value, each numbered 0.., holding the records of that key in
+// input order; every record delivered exactly once.  classes: bit r = class of record r
+func VerifC03_Distribute(n, pattern, classes, size int) {
+	batches, all := vMakeBatches(n, pattern)
+	cls := make([]int, len(all))
+	for r, s := range all {
+		cls[r] = (classes >> uint(r)) & 1
+		if cls[r] == 1 {
+			s.SetAttribute("k", "y")
+		} else {
+			s.SetAttribute("k", "x")
+		}
+	}
+	dist := vInput(batches, vPermutation(n)).Distribute(obiseq.AnnotationClassifier("k", "NA"), size)
+	type got struct {
+		orders []int
+		recs   []*obiseq.BioSequence
+	}
+	var outs []got
+	var keys []int
+	done := make(chan bool)
+	pendingDrains := 0
+	for key := range dist.News() {
+		it, err := dist.Outputs(key)
+		vAssert(err == nil, "distribute-announced-key-has-an-output")
+		keys = append(keys, key)
+		outs = append(outs, got{})
+		idx := len(outs) - 1
+		pendingDrains++
+		go func() {
+			o, r := vDrain(it)
+			outs[idx] = got{o, r}
+			done <- true
+		}()
+	}
+	for i := 0; i < pendingDrains; i++ {
+		<-done
+	}
+	// expected: classes in order of first appearance
+	var firstSeen []int
+	for r := range all {
+		seen := false
+		for _, c := range firstSeen {
+			seen = seen || c == cls[r]
+		}
+		if !seen {
+			firstSeen = append(firstSeen, cls[r])
+		}
+	}
+	vAssert(len(outs) == len(firstSeen), "distribute-one-output-per-key-value")
+	if len(outs) == len(firstSeen) {
+		ok := true
+		for k, c := range firstSeen {
+			var want []*obiseq.BioSequence
+			for r, s := range all {
+				if cls[r] == c {
+					want = append(want, s)
+				}
+			}
+			ok = ok && vOrdersAreCounting(outs[k].orders) && vSameRecords(outs[k].recs, want)
+		}
+		vAssert(ok, "distribute-each-key-gets-its-records-once-in-order")
+	}
+	vReach("end")
+}
